@@ -318,7 +318,29 @@ def check_reach_helpers(run, rule='R8h'):
                     has_helper = any(isinstance(y, ast.Call) and isinstance(y.func, ast.Attribute) and y.func.attr in ('_op2', 'binop')
                                      for y in ast.walk(e))
                     construct = '%s return %s (for %s)' % (op, src(r.value, 40), cn)
-                    if has_helper:
+                    # ... and is the helper's result itself (possibly wrapped by a constructor), not a reduction of it: `not <list>`,
+                    # any / all / bool / len of the list collapse the M element-wise results into one value
+                    collapsed = None
+                    parents_ = {}
+                    for y in ast.walk(e):
+                        for ch in ast.iter_child_nodes(y):
+                            parents_[id(ch)] = y
+                    for y in ast.walk(e):
+                        if isinstance(y, ast.Call) and isinstance(y.func, ast.Attribute) and y.func.attr in ('_op2', 'binop'):
+                            p_ = parents_.get(id(y))
+                            while p_ is not None:
+                                if isinstance(p_, ast.UnaryOp) and isinstance(p_.op, ast.Not):
+                                    collapsed = 'not'
+                                elif isinstance(p_, ast.Call) and isinstance(p_.func, ast.Name) and p_.func.id in ('any', 'all', 'bool', 'len', 'sum', 'max', 'min'):
+                                    collapsed = p_.func.id
+                                elif isinstance(p_, (ast.Compare, ast.BoolOp)):
+                                    collapsed = 'a comparison / boolean operator'
+                                p_ = parents_.get(id(p_))
+                    if has_helper and collapsed:
+                        run.violation(rule, mem.key, construct, 'the list of element-wise results of the broadcasting helper is reduced by %s to ONE value: '
+                                      'for operands holding M values the operator must return M results (`not [..]` is False for every non-empty list)'
+                                      % collapsed, f=mem, node=r)
+                    elif has_helper:
                         run.holds(rule, mem.key, construct, 'the returned value is the helper result', f=mem, node=r)
                     elif isinstance(e, ast.Constant):
                         run.violation(rule, mem.key, construct, 'a constant is returned without going through the broadcasting helper: for operands '
